@@ -26,7 +26,7 @@ var sysBaseline string
 
 func baseline() string {
 	if sysBaseline == "" {
-		d, stage, err := Compile(Render(Schema{{Name: "app0", Files: [][]Ws{{}}}}))
+		d, stage, err := CompileIsolated(Render(Schema{{Name: "app0", Files: [][]Ws{{}}}}))
 		if stage != "ok" {
 			panic(fmt.Sprintf("empty application does not compile: %s %v", stage, err))
 		}
@@ -36,7 +36,7 @@ func baseline() string {
 }
 
 func observe(texts []PkgText) Observed {
-	d1, stage, err := Compile(texts)
+	d1, stage, err := CompileIsolated(texts)
 	o := Observed{Stage: stage}
 	if err != nil {
 		o.Err = err.Error()
@@ -47,7 +47,7 @@ func observe(texts []PkgText) Observed {
 	if stage != "ok" {
 		return o
 	}
-	d2, stage2, _ := Compile(texts)
+	d2, stage2, _ := CompileIsolated(texts)
 	o.Dump = &d1
 	o.Deterministic = stage2 == "ok" && reflect.DeepEqual(canon(d1), canon(d2))
 	o.SysUnchanged = d1.SysDigestCanon == baseline()
@@ -57,7 +57,7 @@ func observe(texts []PkgText) Observed {
 // the order of the rules one statement expands to depends on Go map order: two compilations are
 // compared with each ACL sorted
 func canon(d Dump) Dump {
-	c := Dump{SysDigest: d.SysDigestCanon, SysDigestCanon: d.SysDigestCanon}
+	c := Dump{SysDigest: d.SysDigestCanon, SysDigestCanon: d.SysDigestCanon, AppACLDigest: ""}
 	for _, it := range d.Items {
 		if len(it.ACL) > 0 {
 			acl := append([]DRule{}, it.ACL...)
